@@ -242,7 +242,9 @@ StepCall(e) ==
            p == CHOOSE p \in pres : TRUE
            x == Expected(e, p)
            v == UNION { Violated(e, q, Expected(e, q), r) : q \in pres }
-           vAll == IF \E q \in pres : Violated(e, q, Expected(e, q), r) = {} THEN {} ELSE v IN
+           \* a call that also disturbed another key's entry is reported under C12 as well
+           vAll == (IF \E q \in pres : Violated(e, q, Expected(e, q), r) = {} THEN {} ELSE v)
+                   \cup (IF OthersOk(e, k) THEN {} ELSE {"C12"}) IN
        /\ kfs' = kfs /\ UNCHANGED kftotal
        /\ IF wrong # {}
           THEN \* behaves as on the forbidden pre-state: a C20 symptom, and whatever the pinned predicates say
